@@ -367,8 +367,8 @@ def _helper_ok(R, tree, m):
 
 @rule(
     "C21.joinstride",
-    props=("C21", "C24"),
-    floor=10,
+    props=("C21", "C24", "C22"),
+    floor=40,
     family="FIN",
     desc="stride clause of the interval join, for all inputs: on every path of pseudo_join the stride of the constructed "
     "result provably divides the stride of each operand that is not a single value and the modular offset from the "
